@@ -97,7 +97,8 @@ def model_case(draw, classes, containers=("da", "ds", "list"), full_modes=False,
         spec["rot"] = {"n_modes": draw(st.integers(2, max(2, spec["n_modes"]))), "power": draw(st.sampled_from(list(powers)))}
     names = draw(st.sampled_from([["sample", "feature"], ["sample", "feature"], ["S", "F"]]))
     return {"cls": cls, "lays": lays, "spec": spec, "names": names,
-            "weights": allow_weights and draw(st.integers(0, 3)) == 0}
+            # user weights: none / one value per feature / 1-D along the first feature dimension of every array ("partial")
+            "weights": allow_weights and draw(st.sampled_from([False, False, False, False, True, "partial"]))}
 
 
 def to_complex(obj, seed):
@@ -120,6 +121,18 @@ def weights_like(obj, sdims, seed):
             return xr.Dataset({n: one(o[n]) for n in o.data_vars})
         f = o.isel({d: 0 for d in sdims}, drop=True)
         return xr.DataArray(rng.uniform(0.3, 3.0, f.shape), dims=f.dims, coords={d: f.coords[d] for d in f.dims if d in f.indexes})
+
+    return L.map_items(obj, one)
+
+
+def partial_weights(obj, sdims):
+    """1-D weights along the first feature dimension of every array (the way latitude weights are usually given)."""
+    def one(o):
+        if isinstance(o, xr.Dataset):
+            return xr.Dataset({n: one(o[n]) for n in o.data_vars})
+        fd = [d for d in o.dims if d not in sdims]
+        f = o.isel({d: 0 for d in o.dims if d != fd[0]}, drop=True)
+        return xr.DataArray(np.linspace(0.5, 2.0, f.sizes[fd[0]]), dims=f.dims, coords={d: f.coords[d] for d in f.dims if d in f.indexes})
 
     return L.map_items(obj, one)
 
@@ -149,7 +162,9 @@ def build_case(desc):
                 fn = "F"
     names[1] = fn
     weights = None
-    if desc.get("weights"):
+    if desc.get("weights") == "partial":
+        weights = [partial_weights(o, sdims) for o in data]
+    elif desc.get("weights"):
         weights = [weights_like(o, sdims, lays[i]["seed"] + 5) for i, o in enumerate(data)]
     spec = dict(desc["spec"])
     if M.family(desc["cls"]) == "cross":
@@ -170,5 +185,5 @@ def case_events(desc):
     if "rot" in sp:
         ev.append(f"power={sp['rot']['power']}")
     if desc.get("weights"):
-        ev.append("weights")
+        ev.append("weights" if desc["weights"] is True else f"weights={desc['weights']}")
     return ev
